@@ -84,6 +84,7 @@ pub struct PktParser<'l> {
  * own encoder produces) needs more pointers than that.  The bound is what stops pointer loops.
  */
 const MAX_COMPRESSION_DEPTH: i32 = 127;
+const MAX_NAME_LENGTH: usize = 255;
 
 impl<'l> PktParser<'l> {
     pub const fn new(buffer: &'l [u8]) -> PktParser<'l> {
@@ -133,6 +134,7 @@ impl<'l> PktParser<'l> {
     fn get_domain_into(
         &mut self,
         domainv: &mut Vec<dnspkt::Label>,
+        wirelen: &mut usize,
         depth: i32,
     ) -> Result<(), String> {
         loop {
@@ -144,6 +146,13 @@ impl<'l> PktParser<'l> {
                 }
                 p if p & 0b1100_0000 == 0 => {
                     // Uncompressed label
+                    /* RFC1035 Section 2.3.4: a name is at most 255 octets on the wire, counting a
+                     * length octet for every label and one for the root.
+                     */
+                    *wirelen += 1 + prefix as usize;
+                    if *wirelen + 1 > MAX_NAME_LENGTH {
+                        return Err("Domain name too long".into());
+                    }
                     domainv.push(dnspkt::Label::from(self.get_bytes(prefix as usize)?));
                 }
                 offset_high if offset_high & 0b1100_0000 == 0b1100_0000 => {
@@ -156,7 +165,7 @@ impl<'l> PktParser<'l> {
                         (((offset_high & !0b1100_0000) as usize) << 8) | (offset_low as usize);
                     let saved_offset = self.offset;
                     self.offset = offset;
-                    let ret = self.get_domain_into(domainv, depth + 1);
+                    let ret = self.get_domain_into(domainv, wirelen, depth + 1);
                     self.offset = saved_offset;
                     return ret;
                 }
@@ -167,7 +176,8 @@ impl<'l> PktParser<'l> {
 
     pub fn get_domain(&mut self) -> Result<dnspkt::Domain, String> {
         let mut domainv = Vec::new();
-        self.get_domain_into(&mut domainv, 1)
+        let mut wirelen = 0;
+        self.get_domain_into(&mut domainv, &mut wirelen, 1)
             .map(|_| dnspkt::Domain::from(domainv))
     }
 
